@@ -123,6 +123,24 @@ theorem tie_handler_update_phases :
 theorem tie_handler_create_delete :
     C16.handlerCreateAdds = true ∧ C16.handlerDeleteDrops = true ∧ C16.arbDeleteOnlyDropsMark = true := by decide
 
+/-- Create returns before AddPodMigrationJob exactly for the phases of the model's `terminalPhase` (one guard
+    `Phase == K1 || …` with a bare return, in any order; no other test of the phase): `finished_job_not_taken_in` -/
+theorem tie_handler_create_skips_finished :
+    C16.handlerCreateSkipShape = true ∧ (∀ ph, terminalPhase ph = C16.handlerCreateSkipPhases.contains ph) := by
+  refine ⟨by decide, fun ph => ?_⟩
+  have h1 : ∀ ph < 7, terminalPhase ph = C16.handlerCreateSkipPhases.contains ph := by decide
+  have h2 : ∀ x ∈ C16.handlerCreateSkipPhases, x < 7 := by decide
+  by_cases h : ph < 7
+  · exact h1 ph h
+  · have a : terminalPhase ph = false := by
+      simp only [terminalPhase, Bool.or_eq_false_iff, beq_eq_false_iff_ne, ne_eq]
+      omega
+    have b : C16.handlerCreateSkipPhases.contains ph = false := by
+      cases hc : C16.handlerCreateSkipPhases.contains ph with
+      | false => rfl
+      | true => exact absurd (h2 ph (by simpa using hc)) h
+    rw [a, b]
+
 /-- no code of package v1alpha2 outside the generated deep-copy / conversion files names one of the three caps — in
     particular SetDefaults_DeschedulerConfiguration does not (the model's `defaultCap` is the identity) -/
 theorem tie_defaults_leave_caps : C16.v1alpha2CapMentions = 0 := by decide
